@@ -75,8 +75,9 @@ DoStart ==
 
 \* a POST without ophandle=, or on a file: refused, nothing is registered
 DoBadStart ==
-  \E h \in Handles \cup {""}, isdir \in BOOLEAN, r \in RetainArgs :
-    LET t == CHOOSE x \in Targets : TRUE IN
+  \E h \in Handles \cup {""}, isdir \in BOOLEAN :
+    LET t == CHOOSE x \in Targets : TRUE
+        r == NoRetain IN
     /\ Tick /\ (h = "" \/ ~isdir)
     /\ S' = Start(S, h, t[1], t[2], isdir, r)
     /\ last' = [NoLast EXCEPT !.op = "BadStart", !.h = h,
